@@ -1,9 +1,9 @@
 #!/bin/sh
-# usage: selftest_verify_seed.sh <worktree> <prop-id> <n>
+# usage: selftest_verify_seed.sh <worktree> <prop-id> <n> [number to store it under]
 # Confirms a seeded defect independently: suite still at baseline with the
 # change, demo fails with it and passes without it.  Writes seeded/<id>_<n>/.
 wt="$1"; id="$2"; n="$3"
-out="/verif/seeded/${id}_m${n}"
+out="/verif/seeded/${id}_m${4:-$n}"
 export SAS_DLL_PATH="$wt/.dllcache_verify" SAS_OPENCL=none PYTHONPATH="$wt"
 cd "$wt" || exit 2
 git checkout -q -- . || exit 2
